@@ -33,7 +33,7 @@ import (
 	"strings"
 )
 
-func init() { generators["PoolFacts"] = genPoolFacts }
+func init() { register2("PoolFacts", genPoolFacts) }
 
 type poolSpec struct {
 	Name string // label used in Coq
